@@ -27,6 +27,7 @@ class Layout:
         self.cc_by_name = {v["name"]: k for k, v in self.commands.items()}
         self.synthetic = {}
         self._text = None
+        self._area_set = None
 
     # ---- pinned text forms -------------------------------------------------------------
     def text(self, tname, v):
@@ -97,14 +98,19 @@ class Layout:
                 return f["type"]
         raise KeyError(member)
 
+    def _areas(self):
+        if self._area_set is None:
+            self._area_set = {c[k] for c in self.commands.values() for k in ("cmd_handles", "cmd_params", "rsp_handles", "rsp_params")}
+        return self._area_set
+
     def struct_names(self):
-        """all non-union structure type names that can be decoded as a root (pinned, sorted)"""
-        return sorted(n for n, t in self.types.items()
-                      if t["kind"] != "union" and n != ENC_TPM2B
-                      and not n.startswith(("TPMS_COMMAND_", "TPMS_RESPONSE_")))
+        """all non-union structure type names that can be decoded as a root (pinned, sorted); the handle / parameter
+        area types of the command tables are listed by area_names()"""
+        a = self._areas()
+        return sorted(n for n, t in self.types.items() if t["kind"] != "union" and n != ENC_TPM2B and n not in a)
 
     def area_names(self):
-        return sorted(n for n in self.types if n.startswith(("TPMS_COMMAND_", "TPMS_RESPONSE_")))
+        return sorted(self._areas())
 
 
 def disp(tname):
